@@ -155,63 +155,145 @@ Proof. induction l; intros; simpl; auto. apply IHl. unfold scan_boundary. rewrit
 
 Definition tri_of (b : nat * @interface R) (mi ti : nat) := nth_tri (snd b) mi ti.
 
-Definition ginv (p al0 : rvec) (l : list (nat * @interface R)) (st : @gstate R) : Prop :=
-  gs_err st = None ->
-  (l = [] -> gs_d st = None /\ gs_al st = al0 /\ gs_near st = None) /\
-  (l <> [] -> exists b mi ti t d ins, In b l /\ gs_near st = Some (fst b, mi, ti) /\ tri_of b mi ti = Some t /\
-      gs_d st = Some d /\ dist_point_triangle Rops p (fst t) (vzero Rops) = DOk d (gs_al st) ins /\
-      forall b' mi' ti' t' d' al' ins', In b' l -> tri_of b' mi' ti' = Some t' ->
-        dist_point_triangle Rops p (fst t') (vzero Rops) = DOk d' al' ins' -> d <= d').
+(* all triangles of a list of boundaries are at least d away *)
+Definition all_ge (p : rvec) (l : list (nat * @interface R)) (d : R) : Prop :=
+  forall b' mi' ti' t' d' al' ins', In b' l -> tri_of b' mi' ti' = Some t' ->
+    dist_point_triangle Rops p (fst t') (vzero Rops) = DOk d' al' ins' -> d <= d'.
 
-Lemma ginv_fold p al0 l : ginv p al0 l (fold_left (scan_boundary Rops true p) l (mkGS None al0 None None)).
+(* invariant of the loop of dist_point_geom AS IT IS, for the triangle and the distance (not the weights) *)
+Definition ginv (p : rvec) (l : list (nat * @interface R)) (st : @gstate R) : Prop :=
+  gs_err st = None ->
+  (l = [] -> gs_d st = None /\ gs_near st = None) /\
+  (l <> [] -> exists b mi ti t d al ins, In b l /\ gs_near st = Some (fst b, mi, ti) /\ tri_of b mi ti = Some t /\
+      gs_d st = Some d /\ dist_point_triangle Rops p (fst t) (vzero Rops) = DOk d al ins /\ all_ge p l d).
+
+Lemma ginv_fold p al0 l : ginv p l (fold_left (scan_boundary Rops false p) l (mkGS None al0 None None)).
 Proof.
   induction l using rev_ind.
   - intros _. simpl. split; [auto|congruence].
   - rewrite fold_left_app. cbn [fold_left].
-    set (st := fold_left (scan_boundary Rops true p) l (mkGS None al0 None None)) in *.
+    set (st := fold_left (scan_boundary Rops false p) l (mkGS None al0 None None)) in *.
     intro Herr.
     assert (E0 : gs_err st = None).
     { destruct (gs_err st) eqn:E; auto. unfold scan_boundary in Herr. rewrite E in Herr. congruence. }
     specialize (IHl E0). destruct IHl as [Hnil Hmin].
     unfold scan_boundary in Herr |- *. rewrite E0 in Herr |- *.
-    set (r := dist_point_interface Rops p (snd x) (vzero Rops)) in *.
+    set (r := dist_point_interface Rops p (snd x) (gs_al st)) in *.
     destruct (is_err r) eqn:Er; [cbn in Herr; discriminate|].
-    destruct (interface_min_is_min p (snd x) (vzero Rops) r eq_refl Er) as [_ [Hempty | Hr]].
+    destruct (interface_min_is_min p (snd x) (gs_al st) r eq_refl Er) as [_ [Hempty | Hr]].
     { destruct Hempty as (_ & D & _ & N). rewrite D in Herr. cbn in Herr. discriminate. }
     destruct Hr as (mi & ti & t & d & ins & N & Ht & D & Hd & Hle).
     rewrite D, N in Herr |- *.
     split; [intro H; destruct l; discriminate|]. intros _.
     destruct l as [|y0 l1].
-    + destruct (Hnil eq_refl) as (D0 & A0 & N0). rewrite D0. cbn [lt_min gs_d gs_al gs_near gs_err].
-      exists x, mi, ti, t, d, ins. split; [left; auto|]. repeat split; auto.
+    + destruct (Hnil eq_refl) as (D0 & N0). rewrite D0. cbn [lt_min gs_d gs_al gs_near gs_err].
+      exists x, mi, ti, t, d, (is_al r), ins. split; [left; auto|]. repeat split; auto.
       intros b' mi' ti' t' d' al' ins' [Hb | []] Ht' Hd'. subst b'. eapply Hle; eauto.
-    + destruct Hmin as (b0 & mi0 & ti0 & t0 & d0 & ins0 & Hin & N0 & Ht0 & D0 & Hd0 & Hle0); [congruence|].
+    + destruct Hmin as (b0 & mi0 & ti0 & t0 & d0 & a0 & ins0 & Hin & N0 & Ht0 & D0 & Hd0 & Hle0); [congruence|].
       rewrite D0. cbn [lt_min]. change (fltb Rops) with Rltb.
       destruct (Rltb d d0) eqn:Elt; cbn [gs_d gs_al gs_near gs_err].
       * apply Rltb_true in Elt.
-        exists x, mi, ti, t, d, ins. split; [apply in_app_iff; right; left; auto|]. repeat split; auto.
+        exists x, mi, ti, t, d, (is_al r), ins. split; [apply in_app_iff; right; left; auto|]. repeat split; auto.
         intros b' mi' ti' t' d' al' ins' Hb Ht' Hd'. apply in_app_iff in Hb. destruct Hb as [Hb | [Hb | []]].
         -- specialize (Hle0 _ _ _ _ _ _ _ Hb Ht' Hd'). lra.
         -- subst b'. eapply Hle; eauto.
       * apply Rltb_false in Elt.
-        exists b0, mi0, ti0, t0, d0, ins0. split; [apply in_app_iff; left; auto|]. repeat split; auto.
+        exists b0, mi0, ti0, t0, d0, a0, ins0. split; [apply in_app_iff; left; auto|]. repeat split; auto.
         intros b' mi' ti' t' d' al' ins' Hb Ht' Hd'. apply in_app_iff in Hb. destruct Hb as [Hb | [Hb | []]].
         -- eapply Hle0; eauto.
         -- subst b'. specialize (Hle _ _ _ _ _ _ Ht' Hd'). lra.
 Qed.
 
-(* the repaired dist_point_geom: the weights handed back are those of the returned triangle, which is a
-   triangle of a boundary of a zero-conductivity domain, and none of these boundaries has a closer triangle *)
-Lemma geom_alphas_belong : forall p g al0 st,
+Lemma geom_unfold p g al0 :
+  dist_point_geom Rops p g al0 = fold_left (scan_boundary Rops false p) (zero_bounds g) (mkGS None al0 None None).
+Proof. unfold dist_point_geom, dist_point_geom_gen. apply geom_flat. Qed.
+
+(* dist_point_geom as it is: the TRIANGLE and the DISTANCE handed back are right - a triangle of a boundary of a
+   zero-conductivity domain, none of these boundaries has a closer one - in any declaration order *)
+Lemma geom_nearest_triangle : forall p g al0 st,
   dist_point_geom Rops p g al0 = st -> gs_err st = None -> zero_bounds g <> [] ->
-  exists b mi ti t d ins, In b (zero_bounds g) /\ gs_near st = Some (fst b, mi, ti) /\ nth_tri (snd b) mi ti = Some t /\
-      gs_d st = Some d /\ dist_point_triangle Rops p (fst t) (vzero Rops) = DOk d (gs_al st) ins /\
-      forall b' mi' ti' t' d' al' ins', In b' (zero_bounds g) -> nth_tri (snd b') mi' ti' = Some t' ->
-        dist_point_triangle Rops p (fst t') (vzero Rops) = DOk d' al' ins' -> d <= d'.
+  exists b mi ti t d al ins, In b (zero_bounds g) /\ gs_near st = Some (fst b, mi, ti) /\ nth_tri (snd b) mi ti = Some t /\
+      gs_d st = Some d /\ dist_point_triangle Rops p (fst t) (vzero Rops) = DOk d al ins /\ all_ge p (zero_bounds g) d.
 Proof.
-  intros p g al0 st Hst Herr Hne. subst st. unfold dist_point_geom, dist_point_geom_gen in *.
-  rewrite geom_flat in *.
+  intros p g al0 st Hst Herr Hne. subst st. rewrite geom_unfold in *.
   destruct (ginv_fold p al0 (zero_bounds g) Herr) as [_ H]. exact (H Hne).
+Qed.
+
+(* ... and the WEIGHTS handed back are those of the nearest triangle of the LAST boundary scanned *)
+Lemma geom_alphas_of_last : forall p g al0 st l bl,
+  dist_point_geom Rops p g al0 = st -> gs_err st = None -> zero_bounds g = l ++ [bl] ->
+  exists mi ti t d ins, nth_tri (snd bl) mi ti = Some t /\
+      dist_point_triangle Rops p (fst t) (vzero Rops) = DOk d (gs_al st) ins /\ all_ge p [bl] d.
+Proof.
+  intros p g al0 st l bl Hst Herr Hz. subst st. rewrite geom_unfold, Hz, fold_left_app in *. cbn [fold_left] in *.
+  set (st := fold_left (scan_boundary Rops false p) l (mkGS None al0 None None)) in *.
+  assert (E0 : gs_err st = None).
+  { destruct (gs_err st) eqn:E; auto. unfold scan_boundary in Herr. rewrite E in Herr. congruence. }
+  unfold scan_boundary in Herr |- *. rewrite E0 in Herr |- *.
+  set (r := dist_point_interface Rops p (snd bl) (gs_al st)) in *.
+  destruct (is_err r) eqn:Er; [cbn in Herr; discriminate|].
+  destruct (interface_min_is_min p (snd bl) (gs_al st) r eq_refl Er) as [_ [Hempty | Hr]].
+  { destruct Hempty as (_ & D & _ & N). rewrite D in Herr. cbn in Herr. discriminate. }
+  destruct Hr as (mi & ti & t & d & ins & N & Ht & D & Hd & Hle).
+  rewrite D, N. exists mi, ti, t, d, ins.
+  assert (A : gs_al (if lt_min Rops d (gs_d st) then mkGS (Some d) (is_al r) (Some (fst bl, mi, ti)) None
+                     else mkGS (gs_d st) (is_al r) (gs_near st) None) = is_al r) by (destruct (lt_min Rops d (gs_d st)); reflexivity).
+  rewrite A. repeat split; auto.
+  intros b' mi' ti' t' d' al' ins' [Hb | []] Ht' Hd'. subst b'. eapply Hle; eauto.
+Qed.
+
+(* PARTIAL: when the last boundary scanned holds a triangle strictly nearer than every triangle of the boundaries
+   scanned before it, the weights are those of the returned triangle *)
+Definition last_is_strictly_nearest (p : rvec) (l : list (nat * @interface R)) (bl : nat * @interface R) : Prop :=
+  exists mi ti t d al ins, nth_tri (snd bl) mi ti = Some t /\
+    dist_point_triangle Rops p (fst t) (vzero Rops) = DOk d al ins /\
+    forall b' mi' ti' t' d' al' ins', In b' l -> tri_of b' mi' ti' = Some t' ->
+      dist_point_triangle Rops p (fst t') (vzero Rops) = DOk d' al' ins' -> d < d'.
+
+Lemma geom_alphas_belong_partial : forall p g al0 st l bl,
+  dist_point_geom Rops p g al0 = st -> gs_err st = None -> zero_bounds g = l ++ [bl] ->
+  last_is_strictly_nearest p l bl ->
+  exists b mi ti t d ins, In b (zero_bounds g) /\ gs_near st = Some (fst b, mi, ti) /\ nth_tri (snd b) mi ti = Some t /\
+      gs_d st = Some d /\ dist_point_triangle Rops p (fst t) (vzero Rops) = DOk d (gs_al st) ins /\ all_ge p (zero_bounds g) d.
+Proof.
+  intros p g al0 st l bl Hst Herr Hz (mi1 & ti1 & t1 & d1 & al1 & ins1 & Ht1 & Hd1 & Hstrict). subst st.
+  rewrite geom_unfold, Hz, fold_left_app in *. cbn [fold_left] in *.
+  pose proof (ginv_fold p al0 l) as Hinv.
+  set (st := fold_left (scan_boundary Rops false p) l (mkGS None al0 None None)) in *.
+  assert (E0 : gs_err st = None).
+  { destruct (gs_err st) eqn:E; auto. unfold scan_boundary in Herr. rewrite E in Herr. congruence. }
+  specialize (Hinv E0). destruct Hinv as [Hnil Hmin].
+  unfold scan_boundary in Herr |- *. rewrite E0 in Herr |- *.
+  set (r := dist_point_interface Rops p (snd bl) (gs_al st)) in *.
+  destruct (is_err r) eqn:Er; [cbn in Herr; discriminate|].
+  destruct (interface_min_is_min p (snd bl) (gs_al st) r eq_refl Er) as [_ [Hempty | Hr]].
+  { destruct Hempty as (_ & D & _ & N). rewrite D in Herr. cbn in Herr. discriminate. }
+  destruct Hr as (mi & ti & t & d & ins & N & Ht & D & Hd & Hle).
+  rewrite D, N.
+  assert (Hd1' : d <= d1) by exact (Hle _ _ _ _ _ _ Ht1 Hd1).
+  assert (Himp : lt_min Rops d (gs_d st) = true).
+  { destruct l as [|y0 l1].
+    - destruct (Hnil eq_refl) as (D0 & _). rewrite D0. reflexivity.
+    - destruct Hmin as (b0 & mi0 & ti0 & t0 & d0 & a0 & ins0 & Hin & N0 & Ht0 & D0 & Hd0 & Hle0); [congruence|].
+      rewrite D0. cbn [lt_min]. change (fltb Rops) with Rltb. apply Rltb_true.
+      specialize (Hstrict _ _ _ _ _ _ _ Hin Ht0 Hd0). lra. }
+  rewrite Himp. cbn [gs_d gs_al gs_near gs_err].
+  exists bl, mi, ti, t, d, ins. split; [apply in_app_iff; right; left; auto|]. repeat split; auto.
+  intros b' mi' ti' t' d' al' ins' Hb Ht' Hd'. apply in_app_iff in Hb. destruct Hb as [Hb | [Hb | []]].
+  - specialize (Hstrict _ _ _ _ _ _ _ Hb Ht' Hd'). lra.
+  - subst b'. eapply Hle; eauto.
+Qed.
+
+(* special case: a single boundary of a zero-conductivity domain (only the air is non-conductive) *)
+Lemma geom_alphas_belong_single : forall p g al0 st bl,
+  dist_point_geom Rops p g al0 = st -> gs_err st = None -> zero_bounds g = [bl] ->
+  exists b mi ti t d ins, In b (zero_bounds g) /\ gs_near st = Some (fst b, mi, ti) /\ nth_tri (snd b) mi ti = Some t /\
+      gs_d st = Some d /\ dist_point_triangle Rops p (fst t) (vzero Rops) = DOk d (gs_al st) ins /\ all_ge p (zero_bounds g) d.
+Proof.
+  intros p g al0 st bl Hst Herr Hz.
+  destruct (geom_alphas_of_last p g al0 st [] bl Hst Herr Hz) as (mi & ti & t & d & ins & Ht & Hd & _).
+  apply (geom_alphas_belong_partial p g al0 st [] bl Hst Herr Hz).
+  exists mi, ti, t, d, (gs_al st), ins. repeat split; auto. intros b' ? ? ? ? ? ? [].
 Qed.
 
 (* ---------- sensor rows ---------- *)
@@ -273,29 +355,52 @@ Proof.
   destruct (Reqb (fst d) 0); [auto|destruct Hb].
 Qed.
 
-(* a row of Head2EEGMat, end to end *)
-Lemma head2eeg_row_spec : forall g p r, ids_ok g -> zero_bounds g <> [] ->
+(* a row of Head2EEGMat as the code is: on the returned (nearest) triangle, with non-negative weights summing to
+   one - those of the nearest triangle of the LAST boundary scanned - so a constant is read back.  FULL statement. *)
+Lemma head2eeg_row_weights : forall g p r l bl, ids_ok g -> zero_bounds g = l ++ [bl] ->
+  head2eeg_row Rops g p = Some r ->
+  exists b mi ti t d al0 ins al,
+    In b (zero_bounds g) /\ nth_tri (snd b) mi ti = Some t /\
+    dist_point_triangle Rops p (fst t) (vzero Rops) = DOk d al0 ins /\ all_ge p (zero_bounds g) d /\
+    r = write_row (snd t) al /\
+    (exists mi' ti' t' d' ins', nth_tri (snd bl) mi' ti' = Some t' /\
+        dist_point_triangle Rops p (fst t') (vzero Rops) = DOk d' al ins') /\
+    0 <= get3 al 0 /\ 0 <= get3 al 1 /\ 0 <= get3 al 2 /\ get3 al 0 + get3 al 1 + get3 al 2 = 1 /\
+    (distinct3 (snd t) -> row_sum r = 1 /\ forall c, row_apply Rops r (fun _ => c) = c).
+Proof.
+  intros g p r l bl Hids Hz H. unfold head2eeg_row in H.
+  set (st := dist_point_geom Rops p g (vzero Rops)) in *.
+  destruct (gs_err st) eqn:Eerr; [discriminate|].
+  assert (Hne : zero_bounds g <> []) by (rewrite Hz; destruct l; discriminate).
+  destruct (geom_nearest_triangle p g (vzero Rops) st eq_refl Eerr Hne) as (b & mi & ti & t & d & al0 & ins & Hb & N & Ht & D & Hd & Hle).
+  destruct (geom_alphas_of_last p g (vzero Rops) st l bl eq_refl Eerr Hz) as (mi' & ti' & t' & d' & ins' & Ht' & Hd' & _).
+  unfold geom_triangle in H. rewrite N in H.
+  destruct (zero_bounds_in _ _ Hb) as (dm & Hdm & Hbd).
+  rewrite (Hids _ _ Hdm Hbd), Ht in H. inversion H; subst r.
+  pose proof (dpc_weights_nonneg_sum1 _ _ _ _ _ _ Hd') as (W0 & W1 & W2 & WS).
+  exists b, mi, ti, t, d, al0, ins, (gs_al st). repeat split; eauto 10.
+  - apply row_sums_to_one; auto.
+  - intro c. apply constant_potential_read_back; auto.
+Qed.
+
+(* PARTIAL: under the hypothesis of geom_alphas_belong_partial the entries are the returned triangle's own weights,
+   i.e. the row reconstructs a nearest point of the non-conductive boundaries (up to dpc: see the dpc_nearest theorems) *)
+Lemma head2eeg_row_spec_partial : forall g p r l bl, ids_ok g -> zero_bounds g = l ++ [bl] ->
+  last_is_strictly_nearest p l bl ->
   head2eeg_row Rops g p = Some r ->
   exists b mi ti t d al ins,
     In b (zero_bounds g) /\ nth_tri (snd b) mi ti = Some t /\
     dist_point_triangle Rops p (fst t) (vzero Rops) = DOk d al ins /\
-    r = write_row (snd t) al /\
-    (forall b' mi' ti' t' d' al' ins', In b' (zero_bounds g) -> nth_tri (snd b') mi' ti' = Some t' ->
-        dist_point_triangle Rops p (fst t') (vzero Rops) = DOk d' al' ins' -> d <= d') /\
-    0 <= get3 al 0 /\ 0 <= get3 al 1 /\ 0 <= get3 al 2 /\ get3 al 0 + get3 al 1 + get3 al 2 = 1 /\
-    (distinct3 (snd t) -> row_sum r = 1 /\ forall c, row_apply Rops r (fun _ => c) = c).
+    r = write_row (snd t) al /\ all_ge p (zero_bounds g) d.
 Proof.
-  intros g p r Hids Hne H. unfold head2eeg_row in H.
+  intros g p r l bl Hids Hz Hlast H. unfold head2eeg_row in H.
   set (st := dist_point_geom Rops p g (vzero Rops)) in *.
   destruct (gs_err st) eqn:Eerr; [discriminate|].
-  destruct (geom_alphas_belong p g (vzero Rops) st eq_refl Eerr Hne) as (b & mi & ti & t & d & ins & Hb & N & Ht & D & Hd & Hle).
+  destruct (geom_alphas_belong_partial p g (vzero Rops) st l bl eq_refl Eerr Hz Hlast) as (b & mi & ti & t & d & ins & Hb & N & Ht & D & Hd & Hle).
   unfold geom_triangle in H. rewrite N in H.
   destruct (zero_bounds_in _ _ Hb) as (dm & Hdm & Hbd).
   rewrite (Hids _ _ Hdm Hbd), Ht in H. inversion H; subst r.
-  pose proof (dpc_weights_nonneg_sum1 _ _ _ _ _ _ Hd) as (W0 & W1 & W2 & WS).
   exists b, mi, ti, t, d, (gs_al st), ins. repeat split; auto.
-  - apply row_sums_to_one; auto.
-  - intro c. apply constant_potential_read_back; auto.
 Qed.
 
 (* a row of Head2ECoGMat *)
